@@ -26,8 +26,11 @@ class PropBase:
     quick_per_shard = 100
     thorough_per_shard = 2500
 
+    # the per-class quick_per_shard values were calibrated for ~1-2 s runs; the quick tier runs three times that
+    QUICK_MULT = 3
+
     def budget(self, tier, scale):
-        n = self.quick_per_shard if tier == 'quick' else self.thorough_per_shard
+        n = self.quick_per_shard * self.QUICK_MULT if tier == 'quick' else self.thorough_per_shard
         return max(1, int(n * scale))
 
     def corpus(self):
